@@ -1,4 +1,4 @@
-\* S2C, thorough: histories of two calls over all heaps (duplicates, empty and singleton lists, pseudo-series)
+\* thorough tier: the clauses on every history of two calls over all heaps (printed for the S2C replay as well)
 CONSTANTS MaxSteps = 2
           FreeSteps = 1
           Scope = "thorough"
@@ -6,3 +6,10 @@ CONSTANTS MaxSteps = 2
           Extend = FALSE
 INIT Init
 NEXT NextGen
+INVARIANT PoolUntouched
+INVARIANT ResultByOriginal
+INVARIANT FormIrrelevant
+INVARIANT RightListPinned
+INVARIANT SwapArguments
+INVARIANT ListAggregates
+PROPERTY CallsChangeNothing
